@@ -177,7 +177,6 @@ pub fn eval(dc: &Decaf, mode: Mode, bytes: &[u8], origin: &str) -> Outcome {
     }
     let eps = entry_points(bytes);
     // expected verdict per entry point
-    let mut first_ok: Option<(&'static str, Coords)> = None;
     for (name, got) in &eps {
         let stream = name.contains("deserialize_compressed");
         // stream deserialisers read exactly 32 bytes: verdict is that of the 32-byte prefix
@@ -185,18 +184,19 @@ pub fn eval(dc: &Decaf, mode: Mode, bytes: &[u8], origin: &str) -> Outcome {
         match (&spec_eff, got) {
             (Ok(p), V::Ok(c)) => {
                 let cb = coords_big(c);
-                // Z = 1 deterministic; same class as decodeSpec; valid extended coordinates
-                let class_ok = (cb[0] == p.x && cb[1] == p.y) || (cb[0] == f.neg(&p.x) && cb[1] == f.neg(&p.y));
-                if !(cb[2].is_one() && class_ok && cb[3] == f.mul(&cb[0], &cb[1])) {
-                    return Outcome::bad(class, mkv(format!("C02|wrong-element|{name}"), bytes, origin, format!("element of decodeSpec: ({}, {}) (or its coset twin), Z=1, T=xy", p.x, p.y), format!("{:?}", hex_coords(c))));
-                }
-                match &first_ok {
-                    None => first_ok = Some((name, *c)),
-                    Some((n0, c0)) => {
-                        if c0 != c {
-                            return Outcome::bad(class, mkv(format!("C02|entry-points-disagree|{name}"), bytes, origin, format!("same element as {n0}"), format!("{:?} vs {:?}", hex_coords(c), hex_coords(c0))));
-                        }
+                // same class as decodeSpec (either coset member, any projective scaling) and valid
+                // extended coordinates: Z != 0, T*Z == X*Y. Which representative an entry point
+                // hands back is not constrained by the property.
+                let good = match f.inv(&cb[2]) {
+                    Some(zi) => {
+                        let (x, y) = (f.mul(&cb[0], &zi), f.mul(&cb[1], &zi));
+                        let class_ok = (x == p.x && y == p.y) || (x == f.neg(&p.x) && y == f.neg(&p.y));
+                        class_ok && f.mul(&cb[3], &cb[2]) == f.mul(&cb[0], &cb[1])
                     }
+                    None => false,
+                };
+                if !good {
+                    return Outcome::bad(class, mkv(format!("C02|wrong-element|{name}"), bytes, origin, format!("element of decodeSpec: ({}, {}) (or its coset twin, any projective scaling), T*Z == X*Y", p.x, p.y), format!("{:?}", hex_coords(c))));
                 }
             }
             (Ok(_), other) => {
